@@ -11,6 +11,7 @@ mod ops;
 mod ops_ecc;
 mod ops_ff;
 mod ops_hash;
+mod ops_map;
 mod ops_ng;
 mod ops_parse;
 mod ops_pi;
